@@ -2,6 +2,8 @@ import Rare.Base.Proto
 import Rare.Model.C01
 import Rare.Model.AggLoopTrace
 import Rare.Drv.C01
+import Rare.Model.Lockset
+import Rare.Model.C05Status
 namespace Rare.Drv.C05
 open Rare Rare.C01 Rare.Proto Rare.Pipeline
 
@@ -32,9 +34,54 @@ def aggTrace (cfg : PipelineTrace.Cfg) (evs : List TraceOrder.Ev) : String :=
     let st := " ".intercalate (stuck.map fun p => s!"{p}:{Drv.C01.showEv (TraceOrder.evAt tr p)}")
     s!"rejected aggloop after={deepest}/{tr.size} exhaustive={exhausted} frontier={st}"
 
+open Rare.Gen.Access Rare.Lockset in
+/-- Static verdict of the lockset check on one regenerated table: `ok racefree`, or the first offending
+    pair of access sites (function:line:field/object:kind:lock:how). -/
+def locksetVerdict (name : String) : String :=
+  let pairs (l : List (Acc × Acc)) : String :=
+    match l with
+    | [] => "ok racefree"
+    | (a, b) :: _ => s!"race {showAcc a} vs {showAcc b} (+{l.length - 1} more pairs)"
+  let mon (l : List Acc) : String :=
+    match l with
+    | [] => "ok racefree"
+    | a :: _ => s!"leak {showAcc a} (+{l.length - 1} more)"
+  match name with
+  | "batcher" => pairs (offenders batcherCtors batcher)
+  | "extractor" => pairs (offenders extractorCtors extractor)
+  | "ignoreSet" => pairs (offenders ignoreSetCtors ignoreSet)
+  | "objectPool" => pairs (offenders objectPoolCtors objectPool)
+  | "logger" => pairs (offenders loggerCtors logger)
+  | "multitermGlobals" => pairs (offenders multitermGlobalsCtors multitermGlobals)
+  | "aggLoop" => pairs (offendersRoles aggLoop)
+  | "aggregation" => mon (monitorOffenders aggregation)
+  | "multiterm" => mon (monitorOffenders multiterm)
+  | "termrenderers" => mon (monitorOffenders termrenderers)
+  | _ => "bad-args table"
+
+/-- `status <setup> <body> <reps> <readers>`: the sequential meaning of a script of status updates (the
+    observable part of `StatusString` after every step of `setup ++ body`), whether `body` brings the
+    active list back to where it started (then the harness repeats it `reps` times against concurrent
+    readers), the final observable, and the claim `bad=0`: a concurrent `StatusString` only ever shows an
+    active list that existed. -/
+def statusAnswer (setup body : String) (reps : Nat) : String :=
+  match C05Status.parseScript setup, C05Status.parseScript body with
+  | some su, some bo =>
+    let s0 := C05Status.run {} su
+    let s1 := C05Status.run s0 bo
+    let cyclic := C05Status.activePart s0 == C05Status.activePart s1
+    let r := if cyclic then reps else 1
+    let fin := (List.range r).foldl (fun s _ => C05Status.run s bo) s0
+    let seq := (C05Status.states {} (su ++ bo)).drop 1
+    let enc (t : String) := Hex.enc t.toUTF8.data.toList
+    s!"ok seq={";".intercalate (seq.map fun st => enc (C05Status.observable st))} cyclic={if cyclic then 1 else 0} bad=0 final={enc (C05Status.observable fin)}"
+  | _, _ => "bad-args script"
+
 /-- `agg <inputs hexlist> …`: the final histogram every schedule must end with (keys sorted bytewise),
     the matched total, and the two flags the harness reports (`1` = the property held in that run).
-    `atrace <blob>`: trace inclusion of a real run's event log (blob as in C01's `ptrace`). -/
+    `atrace <blob>`: trace inclusion of a real run's event log (blob as in C01's `ptrace`).
+    `lockset <table>`: the static lockset verdict on the table regenerated from /repo.
+    `status …`: status bookkeeping of the Batcher.  `pool …`: exclusive ownership of pooled objects. -/
 def handle : List String → String
   | "agg" :: ins :: _ =>
     match decHexList ins with
@@ -54,6 +101,9 @@ def handle : List String → String
         | some cfg, some evs => aggTrace cfg evs
         | _, _ => "bad-args cfg/trace"
     | _ => "bad-args blob"
+  | "lockset" :: name :: _ => locksetVerdict name
+  | "status" :: setup :: body :: reps :: _ => statusAnswer setup body reps.toNat!
+  | "pool" :: _ => "ok bad=0"
   | _ => "bad-op"
 
 end Rare.Drv.C05
